@@ -7,7 +7,7 @@ names are strings of NAMES, ann indexes ANNS, vkind indexes VKINDS."""
 import ast, inspect, linecache, itertools, json, re
 from .. import use_repo
 
-NAMES = ["x", "y", "z", "w", "k", "j", "u", "v"]
+NAMES = ["x", "y", "z", "w", "k", "j", "u", "v", "method"]
 NAME_ID = {n: i for i, n in enumerate(NAMES)}
 # annotations: 0 object, 1 int, 2 str, 3 A, 4 B(A), 5 type[A] (the only "complex" one: a builtin types.GenericAlias)
 N_ANNS = 6
